@@ -49,6 +49,29 @@ CHECKS = {
              "random histories of the real object (n=1..5, several live objects) are validated call by call -- tables of ALL live objects and the outcome of every getter "
              "(value / ValueError / None / NaN) after every call -- and behaviours generated by TLC's simulator are executed on the real object and validated.",
         note="scalar bound setters only on unknown coalitions; duplicate-free coalition lists; exhaustive within n<=2, values {0,1}, depth<=4"),
+    "C09": dict(
+        level="model_checking", design="§5 C09", technique="TLC on MC_Gym (all reset/step/unstep sequences) + trace validation of real ICG_Gym runs (Trace_Gym) + replay of TLC-simulated behaviours into a real environment",
+        text="TLC explores every sequence of reset/step/unstep with valid actions (n=3 exhaustive, n=4 bounded; all gaps, budgets None/1/2, computers matching the class, "
+             "a fixed sequence of hidden games so that draws differ) and checks known = initial + chosen with hidden values, fresh bounds, reward sign, observation range, "
+             "done semantics, reset drawing one new game; real environments (built directly on exact games and through ModelInstance.get_env() for the registered "
+             "generator families) are driven through random non-LIFO step/unstep/reset walks and every returned observation, reward, done flag, info id, mask and the "
+             "public state are validated event by event; TLC-simulated behaviours are executed on a real ICG_Gym fed with the model's games.",
+        note="n<=5 on the real code; float families on a grid with stated tolerances; actions are valid ones (the property's premise)"),
+    "C13": dict(
+        level="model_checking", design="§5 C13", technique="TLC undo invariant at every reachable environment state (MC_Gym) and expected-greedy model (MC_Search) + trace validation of solver queries with observed reward ranks",
+        text="At every state of recorded walks the driver probes each valid action through the public step/unstep API (logged as ordinary events, so the undo "
+             "property is checked there too), logs the dense ranks of the float rewards, then queries the real solver; TLC checks that the choice is the "
+             "lowest-index valid action that is maximal (greedy), minimal (worst-greedy), of largest size (largest) or merely valid (random), that the environment "
+             "(table bits, counters, hidden game object, generator call count) is untouched, and that the observed ranks agree with the specification's exact gaps. "
+             "The model proves undo restores the environment at every reachable state.",
+        note="solver rule judged on the rewards the environment actually returned; n=3 all states, n=4..5 sampled"),
+    "C16": dict(
+        level="model_checking", design="§5 C16", technique="TLC on MC_Gym's linear view (every allowed candidate) + trace validation of real ICG_Gym_Linear episodes with the inner environment logged",
+        text="TLC checks for every reachable inner state that size k is allowed iff a candidate exists and that every allowed candidate's step reveals exactly one unknown "
+             "coalition of that size; real linear environments (n=3..6, exact games and generator families) are run over sequences of allowed sizes and TLC validates: "
+             "exactly one previously unknown explorable coalition of the requested size became known and is reported, the step is an inner step of an allowed action, "
+             "reward/done are the inner environment's, mask and observation are the per-size aggregation (length n) after reset and every step.",
+        note="tie-breaks of the real wrapper are sampled (numpy global RNG), all candidates are covered in the model"),
 }
 
 NOT_YET = "check not built yet (build in progress; see DESIGN.md §5 for the plan)"
